@@ -1349,6 +1349,21 @@ pub fn do_step(out: &mut Out, s: &mut Sess, cmd: &Command, prop: &str, seq: &[St
         eprintln!("coverage table out of date: {:?} has a model op line but is not classified Modelled", variant_info(cmd).0);
         std::process::exit(3);
     }
+    // a known finding is identified by its CAUSE: for an input of a finding's class the model of the
+    // code as it is (`Model.ExecutorCode`, or the specification on the lossy form of a binary name)
+    // answers first and must predict this very reply and keyspace; then the model is put back to the
+    // keyspace before the command and the specification is asked as for every other command
+    if let (Some(rv), Some(_)) = (&r, &op) {
+        if let Some((cause_op, sig, cro)) = cause_variant(cmd, ro) {
+            let _ = rv;
+            out.op(format!("{} {} ;; {}", now, cause_op, after), format!("{} | {} | ro={}", reply, after, cro as u8));
+            let line = out.n_ops();
+            let e = out.extra.entry("must_agree".to_string()).or_insert_with(|| json!([]));
+            e.as_array_mut().unwrap().push(json!([line, sig]));
+            out.op(format!("{} ADOPT ;; {}", now, before), "adopt".to_string());
+            out.count(&format!("cause-line:{}", sig));
+        }
+    }
     let opline = match &op {
         Some(o) => format!("{} {} ;; {}", now, o, after),
         None => format!("{} ADOPT ;; {}", now, after),
@@ -1430,10 +1445,49 @@ pub fn has_binary_name(cmd: &Command) -> bool {
     let bad = |x: &SDS| std::str::from_utf8(x.as_bytes()).is_err();
     match cmd {
         Command::SAdd(_, ms) | Command::SRem(_, ms) | Command::ZRem(_, ms) | Command::HDel(_, ms) => ms.iter().any(bad),
-        Command::SIsMember(_, m) | Command::HGet(_, m) | Command::ZScore(_, m) | Command::ZRank(_, m) | Command::HIncrBy(_, m, _) => bad(m),
+        Command::SIsMember(_, m) | Command::HGet(_, m) | Command::HExists(_, m) | Command::ZScore(_, m) | Command::ZRank(_, m) | Command::HIncrBy(_, m, _) => bad(m),
         Command::HSet(_, fvs) => fvs.iter().any(|(f, _)| bad(f)),
         Command::ZAdd { pairs, .. } => pairs.iter().any(|(_, m)| bad(m)),
         _ => false,
+    }
+}
+
+fn lossy(x: &SDS) -> SDS {
+    SDS::new(String::from_utf8_lossy(x.as_bytes()).into_owned().into_bytes())
+}
+
+/// for an input of the class of a recorded finding: the op text under which the model of that
+/// finding's cause answers, the finding's signature, and the read-only flag that line prints
+pub fn cause_variant(cmd: &Command, ro: bool) -> Option<(String, &'static str, bool)> {
+    let dummy = RespValue::BulkString(None);
+    if has_binary_name(cmd) {
+        // cause: the container stores `String::from_utf8_lossy(name)` — the specification on the
+        // lossy names is what the code does
+        let l = |v: &Vec<SDS>| v.iter().map(lossy).collect::<Vec<_>>();
+        let (lc, sig) = match cmd {
+            Command::SAdd(k, ms) => (Command::SAdd(k.clone(), l(ms)), "C01:set-member-not-binary-safe"),
+            Command::SRem(k, ms) => (Command::SRem(k.clone(), l(ms)), "C01:set-member-not-binary-safe"),
+            Command::SIsMember(k, m) => (Command::SIsMember(k.clone(), lossy(m)), "C01:set-member-not-binary-safe"),
+            Command::HSet(k, fvs) => (Command::HSet(k.clone(), fvs.iter().map(|(f, v)| (lossy(f), v.clone())).collect()), "C01:hash-field-not-binary-safe"),
+            Command::HDel(k, fs) => (Command::HDel(k.clone(), l(fs)), "C01:hash-field-not-binary-safe"),
+            Command::HGet(k, f) => (Command::HGet(k.clone(), lossy(f)), "C01:hash-field-not-binary-safe"),
+            Command::HExists(k, f) => (Command::HExists(k.clone(), lossy(f)), "C01:hash-field-not-binary-safe"),
+            Command::HIncrBy(k, f, d) => (Command::HIncrBy(k.clone(), lossy(f), *d), "C01:hash-field-not-binary-safe"),
+            Command::ZAdd { key, pairs, nx, xx, gt, lt, ch } => (
+                Command::ZAdd { key: key.clone(), pairs: pairs.iter().map(|(s, m)| (*s, lossy(m))).collect(), nx: *nx, xx: *xx, gt: *gt, lt: *lt, ch: *ch },
+                "C01:zset-member-not-binary-safe",
+            ),
+            Command::ZRem(k, ms) => (Command::ZRem(k.clone(), l(ms)), "C01:zset-member-not-binary-safe"),
+            Command::ZScore(k, m) => (Command::ZScore(k.clone(), lossy(m)), "C01:zset-member-not-binary-safe"),
+            Command::ZRank(k, m) => (Command::ZRank(k.clone(), lossy(m)), "C01:zset-member-not-binary-safe"),
+            _ => return None,
+        };
+        return enc_cmd(&lc, &dummy).map(|o| (o, sig, ro));
+    }
+    match cmd {
+        Command::GetRange(k, a, b) if *a < 0 && *b < 0 => Some((format!("CODE GETRANGE {} {} {}", hk(k), a, b), "C01:getrange-negative-inverted", false)),
+        Command::GetSet(k, v) => Some((format!("CODE GETSET {} {}", hk(k), hv(v)), "C01:getset-keeps-deadline", false)),
+        _ => None,
     }
 }
 
